@@ -233,7 +233,7 @@ func w13Supervise(t *testing.T, test string) bool {
 		vFail(t, test, key, nil, "server goroutine crashed the process (%s), the case in flight is unknown\n%s", head, w13Head(stack, 30))
 		return true
 	}
-	if vIsKnown(key) {
+	if w13KnownKeys().covers(key) {
 		// cannot continue behind it in this process model: report it as a known hit and stop
 		vstat(test).KnownHit(key)
 		fmt.Printf("VERIF-NOTE C13 known finding %s killed the child, the remaining budget of this shard is lost\n", key)
